@@ -123,6 +123,113 @@ theorem relDistance_le_of_nonneg (ord : Ordering) (a b : List Rat) (ha : NonNeg 
 theorem relDistance_le_general (ord : Ordering) (a b : List Rat) : relDistance ord a b ≤ 2 * (a.length : Rat) :=
   (relDistance_abs_le ord a b 2 (by norm_num) (fun i => relChange_le_two _ _)).2
 
+
+/-! ### the sign of the distance says whether the solution is better -/
+
+theorem relChange_pos {a b : Rat} (h : a ≠ b) : 0 < relChange a b := by
+  unfold relChange
+  have h1 : 0 < absR (a - b) := by
+    unfold absR; split
+    · linarith
+    · rcases lt_or_gt_of_ne h with h' | h'
+      · linarith
+      · linarith
+  have h2 : 0 < maxR (absR a) (absR b) := by
+    have := absR_sub_le a b
+    have := le_maxR_left (absR a) (absR b)
+    have := le_maxR_right (absR a) (absR b)
+    by_contra hc
+    push Not at hc
+    have := absR_nonneg a
+    have := absR_nonneg b
+    linarith
+  exact div_pos h1 h2
+
+theorem firstDiff_ne : ∀ (a b : List Rat) (idx : Nat), firstDiff a b = some idx → a.getD idx 0 ≠ b.getD idx 0
+  | [], _, idx, h => by simp [firstDiff] at h
+  | _ :: _, [], idx, h => by simp [firstDiff] at h
+  | x :: as, y :: bs, idx, h => by
+    simp only [firstDiff] at h
+    split at h
+    · cases h; simpa using ‹x ≠ y›
+    · cases hr : firstDiff as bs with
+      | none => simp [hr] at h
+      | some i =>
+        simp [hr] at h
+        subst h
+        simpa using firstDiff_ne as bs i hr
+
+theorem lexOrder_ne_eq_firstDiff : ∀ (a b : List Rat), lexOrder a b ≠ .eq → ∃ idx, firstDiff a b = some idx
+  | [], _, h => by simp [lexOrder] at h
+  | _ :: _, [], h => by simp [lexOrder] at h
+  | x :: as, y :: bs, h => by
+    simp only [lexOrder] at h
+    simp only [firstDiff]
+    by_cases hxy : x = y
+    · subst hxy
+      simp only [lt_irrefl, if_false] at h
+      obtain ⟨i, hi⟩ := lexOrder_ne_eq_firstDiff as bs h
+      exact ⟨i + 1, by simp [hi]⟩
+    · exact ⟨0, by simp [hxy]⟩
+
+/-- the documented reading of `get_relative_distance`: positive iff `a` is better than `b`, negative iff worse, zero iff
+    equal — for the lexicographic order of the harness objective -/
+theorem relDistance_sign (a b : List Rat) :
+    (lexOrder a b = .lt → 0 < relDistance (lexOrder a b) a b) ∧
+    (lexOrder a b = .gt → relDistance (lexOrder a b) a b < 0) ∧
+    (lexOrder a b = .eq → relDistance (lexOrder a b) a b = 0) := by
+  have key : lexOrder a b ≠ .eq → ∃ idx, firstDiff a b = some idx ∧
+      0 < relChange (a.getD idx 0) (b.getD idx 0) * (((a.length - idx : Nat)) : Rat) := by
+    intro hne
+    obtain ⟨idx, hidx⟩ := lexOrder_ne_eq_firstDiff a b hne
+    refine ⟨idx, hidx, ?_⟩
+    have h1 := relChange_pos (firstDiff_ne a b idx hidx)
+    have h2 : (0 : Rat) < ((a.length - idx : Nat) : Rat) := by
+      have := (firstDiff_lt a b idx hidx).1
+      exact_mod_cast (by omega : 0 < a.length - idx)
+    exact mul_pos h1 h2
+  refine ⟨?_, ?_, ?_⟩
+  · intro h
+    obtain ⟨idx, hidx, hpos⟩ := key (by rw [h]; simp)
+    rw [h]
+    simp only [relDistance, hidx]
+    simp only [List.getD_eq_getElem?_getD] at hpos ⊢
+    norm_num
+    linarith
+  · intro h
+    obtain ⟨idx, hidx, hpos⟩ := key (by rw [h]; simp)
+    rw [h]
+    simp only [relDistance, hidx]
+    simp only [List.getD_eq_getElem?_getD] at hpos ⊢
+    rw [if_neg (by decide)]
+    linarith
+  · intro h
+    rw [h]
+    simp [relDistance]
+
+/-- hence a positive base reward is given exactly to solutions that improve on their parent -/
+theorem reward_pos_iff_improves_parent (best initial new : List Rat) :
+    0 < distanceReward lexOrder (some best) initial new ↔ lexOrder new initial = .lt := by
+  have hs := relDistance_sign new initial
+  have hb := relDistance_sign new best
+  unfold distanceReward
+  simp only
+  constructor
+  · intro h
+    by_contra hne
+    have hle : relDistance (lexOrder new initial) new initial ≤ 0 := by
+      cases ho : lexOrder new initial with
+      | lt => exact absurd ho hne
+      | eq => rw [ho] at hs; exact le_of_eq (hs.2.2 rfl)
+      | gt => rw [ho] at hs; exact le_of_lt (hs.2.1 rfl)
+    rw [if_neg (by intro hc; linarith [hc.1]), if_neg (by linarith)] at h
+    exact lt_irrefl _ h
+  · intro h
+    have hpos := hs.1 h
+    split
+    · rename_i hc; nlinarith [hc.1, hc.2]
+    · exact mul_pos (by linarith) (by norm_num)
+
 /-- the reward as a function of two distances bounded by `D` -/
 theorem distanceReward_le (order : List Rat → List Rat → Ordering) (best : Option (List Rat)) (initial new : List Rat)
     (D : Rat) (hD : 0 ≤ D) (hI : relDistance (order new initial) new initial ≤ D)
